@@ -733,6 +733,30 @@ impl<'a> Parser<'a> {
             let op = self.current().clone();
             self.next()?;
 
+            match op {
+                Token::LeftSquareParentheses => {
+                    let index = self.parse_expression_internal()?;
+                    self.expect_and_consume_token(Token::RightSquareParentheses, ParserErrorType::ExpectedRightSquareParentheses)?;
+                    lhs = ParserExpressionTree::new(op_location, ParserExpressionTreeData::ArrayElementAccess { array: Box::new(lhs), index: Box::new(index) });
+                    continue;
+                }
+                Token::Keyword(Keyword::In) | Token::Keyword(Keyword::NotIn) => {
+                    if self.current() != &Token::LeftParentheses {
+                        return Err(ParserError::new(op_location, ParserErrorType::ExpectedTuple));
+                    }
+                    self.next()?;
+
+                    let mut values = Vec::new();
+                    self.parse_list(Token::RightParentheses, &mut values)?;
+                    lhs = ParserExpressionTree::new(
+                        op_location,
+                        ParserExpressionTreeData::In { is_not: op == Token::Keyword(Keyword::NotIn), operand: Box::new(lhs), values }
+                    );
+                    continue;
+                }
+                _ => {}
+            }
+
             let mut rhs = self.parse_unary_operator()?;
             if token_precedence < self.get_token_precedence()? {
                 rhs = self.parse_binary_operator_rhs(token_precedence + 1, rhs)?;
@@ -772,32 +796,6 @@ impl<'a> Parser<'a> {
                         ParserExpressionTreeData::NullableCompare { operator: NullableCompareOperator::NotEqual, left: Box::new(lhs), right: Box::new(rhs) }
                     );
                 }
-                Token::Keyword(Keyword::In) => {
-                    let values = match rhs.tree {
-                        ParserExpressionTreeData::Tuple { values } => {
-                            values
-                        }
-                        _ => { return Err(ParserError::new(op_location, ParserErrorType::ExpectedTuple)); }
-                    };
-
-                    lhs = ParserExpressionTree::new(
-                        op_location,
-                        ParserExpressionTreeData::In { is_not: false, operand: Box::new(lhs), values}
-                    );
-                }
-                Token::Keyword(Keyword::NotIn) => {
-                    let values = match rhs.tree {
-                        ParserExpressionTreeData::Tuple { values } => {
-                            values
-                        }
-                        _ => { return Err(ParserError::new(op_location, ParserErrorType::ExpectedTuple)); }
-                    };
-
-                    lhs = ParserExpressionTree::new(
-                        op_location,
-                        ParserExpressionTreeData::In { is_not: true, operand: Box::new(lhs), values }
-                    );
-                }
                 Token::Keyword(Keyword::And) => {
                     lhs = ParserExpressionTree::new(
                         op_location,
@@ -809,10 +807,6 @@ impl<'a> Parser<'a> {
                         op_location,
                         ParserExpressionTreeData::BooleanOperation { operator: BooleanOperator::Or, left: Box::new(lhs), right: Box::new(rhs) }
                     );
-                }
-                Token::LeftSquareParentheses => {
-                    lhs = ParserExpressionTree::new(op_location, ParserExpressionTreeData::ArrayElementAccess { array: Box::new(lhs), index: Box::new(rhs) });
-                    self.expect_and_consume_token(Token::RightSquareParentheses, ParserErrorType::ExpectedRightSquareParentheses)?;
                 }
                 _ => { return Err(ParserError::new(op_location, ParserErrorType::ExpectedOperator)); }
             }
@@ -827,14 +821,14 @@ impl<'a> Parser<'a> {
                     None => Err(self.create_error(ParserErrorType::NotDefinedBinaryOperator(op.clone())))
                 }
             }
-            Token::DoubleColon => Ok(7),
-            Token::Keyword(Keyword::Is) => Ok(2),
-            Token::Keyword(Keyword::IsNot) => Ok(2),
-            Token::Keyword(Keyword::In) => Ok(2),
-            Token::Keyword(Keyword::NotIn) => Ok(2),
-            Token::Keyword(Keyword::And) => Ok(1),
+            Token::DoubleColon => Ok(8),
+            Token::LeftSquareParentheses => Ok(8),
+            Token::Keyword(Keyword::Is) => Ok(4),
+            Token::Keyword(Keyword::IsNot) => Ok(4),
+            Token::Keyword(Keyword::In) => Ok(4),
+            Token::Keyword(Keyword::NotIn) => Ok(4),
+            Token::Keyword(Keyword::And) => Ok(2),
             Token::Keyword(Keyword::Or) => Ok(1),
-            Token::LeftSquareParentheses => Ok(1),
             _ => Ok(-1)
         }
     }
@@ -952,6 +946,11 @@ impl<'a> Parser<'a> {
         };
 
         let operand = self.parse_unary_operator()?;
+        let operand = match op_token {
+            Token::Keyword(Keyword::Not) => self.parse_binary_operator_rhs(4, operand)?,
+            _ => self.parse_binary_operator_rhs(8, operand)?
+        };
+
         match op_token {
             Token::Operator(op) => {
                 if !self.unary_operators.exists(&op) {
